@@ -115,6 +115,7 @@ type FnExec struct {
 	onCall   func(fx *FnExec, call ssa.CallInstruction, args []Val, res *Val)
 	onReturn func(fx *FnExec, ret *ssa.Return, vals []Val)
 	onStore  func(fx *FnExec, instr ssa.Instruction, pl *Place, v Val)
+	ghostTouch func(call ssa.CallInstruction) bool // does this call update a ghost? (nil = every call may)
 }
 
 type deferredCall struct {
@@ -316,9 +317,9 @@ func (fx *FnExec) zero(t types.Type) string {
 	case *types.Pointer, *types.Map, *types.Chan, *types.Signature:
 		return "0"
 	case *types.Slice:
-		return "nil-slice"
+		return "(mk-slice 0 0 0 0)"
 	case *types.Interface:
-		return "nil-iface"
+		return "(mk-iface 0 0)"
 	case *types.Struct:
 		if u.NumFields() == 0 {
 			return fx.globalConst("u_zero", "U")
@@ -582,11 +583,37 @@ func (fx *FnExec) freshRef(why string) string {
 	// below alloc_base (assumed for parameters and for values read from the initial heap); the
 	// k-th object allocated by this activation is alloc_base + k.
 	fx.allocBase()
-	fx.nalloc++
+	cnt := fx.allocCount()
 	r := fx.freshName("new_" + why)
-	fx.emit("(define-fun %s () Int (+ alloc_base %d))", r, fx.nalloc)
+	fx.emit("(define-fun %s () Int (+ alloc_base %s 1))", r, cnt)
+	fx.bumpAlloc()
 	fx.fresh = append(fx.fresh, r)
 	return r
+}
+
+// allocCount: the ghost allocation counter of the current state (objects allocated so far by this
+// activation and its callees). Kept as an internal ghost so that it is merged at joins and
+// havocked (monotonically) at loop heads.
+func (fx *FnExec) allocCount() string {
+	if v, ok := fx.cur.gh["$acnt"]; ok {
+		return v
+	}
+	fx.cur.gh["$acnt"] = "0"
+	return "0"
+}
+
+func (fx *FnExec) bumpAlloc() {
+	cur := fx.allocCount()
+	fx.cur.gh["$acnt"] = fx.define("acnt", "Int", "(+ "+cur+" 1)")
+}
+
+// adoptFresh: a reference returned by a callee/pool as a fresh object is numbered like an own
+// allocation.
+func (fx *FnExec) adoptFresh(term string) {
+	fx.allocBase()
+	fx.assume("(= " + term + " (+ alloc_base " + fx.allocCount() + " 1))")
+	fx.bumpAlloc()
+	fx.fresh = append(fx.fresh, term)
 }
 
 func (fx *FnExec) allocBase() string {
@@ -896,9 +923,12 @@ func (fx *FnExec) blockPos(b *ssa.BasicBlock) token.Pos {
 	return best
 }
 
-// modifiedInLoop computes heap names possibly written inside the loop, or all=true.
-func (fx *FnExec) modifiedInLoop(li *loopInfo) (names map[string]bool, all bool) {
+// modifiedInLoop computes heap names possibly written inside the loop. iterFresh[name] is true when
+// every write to that heap inside the loop goes to an object allocated inside the loop body
+// itself (so that every object existing at loop entry is unchanged).
+func (fx *FnExec) modifiedInLoop(li *loopInfo) (names map[string]bool, iterFresh map[string]bool, all bool) {
 	names = map[string]bool{}
+	other := map[string]bool{}
 	for _, b := range fx.Fn.Blocks {
 		if !li.body[b.Index] {
 			continue
@@ -906,12 +936,57 @@ func (fx *FnExec) modifiedInLoop(li *loopInfo) (names map[string]bool, all bool)
 		for _, in := range b.Instrs {
 			ms, a := fx.W.instrMods(fx, in)
 			if a {
-				return nil, true
+				return nil, nil, true
 			}
+			fresh := fx.writeIsIterFresh(in, li)
 			for _, m := range ms {
 				names[m] = true
+				if !fresh {
+					other[m] = true
+				}
 			}
 		}
 	}
-	return names, false
+	iterFresh = map[string]bool{}
+	for n := range names {
+		if !other[n] {
+			iterFresh[n] = true
+		}
+	}
+	return names, iterFresh, false
+}
+
+// writeIsIterFresh: the instruction is a direct write whose target object is allocated by an
+// instruction inside the loop body.
+func (fx *FnExec) writeIsIterFresh(in ssa.Instruction, li *loopInfo) bool {
+	var root ssa.Value
+	switch x := in.(type) {
+	case *ssa.Store:
+		root = x.Addr
+	case *ssa.MapUpdate:
+		root = x.Map
+	default:
+		return false
+	}
+	for depth := 0; depth < 20; depth++ {
+		switch r := root.(type) {
+		case *ssa.FieldAddr:
+			root = r.X
+			continue
+		case *ssa.IndexAddr:
+			root = r.X
+			continue
+		case *ssa.Slice:
+			root = r.X
+			continue
+		case *ssa.Alloc:
+			return r.Block() != nil && li.body[r.Block().Index]
+		case *ssa.MakeSlice:
+			return li.body[r.Block().Index]
+		case *ssa.MakeMap:
+			return li.body[r.Block().Index]
+		}
+		return false
+	}
+	return false
 }
